@@ -1,4 +1,105 @@
 /- helper lemmas for C14 -/
 import MelModel.Chain
 namespace Mel
+
+theorem sum_map_add' {α} (l : List α) (f g : α → Nat) :
+    (l.map fun x => f x + g x).sum = (l.map f).sum + (l.map g).sum := by
+  induction l with
+  | nil => simp
+  | cons a t ih => simp only [List.map_cons, List.sum_cons, ih]; omega
+
+theorem sum_map_zero' {α} (l : List α) : (l.map fun _ => 0).sum = 0 := by
+  induction l with
+  | nil => simp
+  | cons a t ih => simp only [List.map_cons, List.sum_cons, ih]
+
+/-- over a duplicate-free key list, a key is hit at most once -/
+theorem sum_map_ite_eq (l : List Bytes) (p : Bytes) (n : Nat) (hnd : l.Nodup) :
+    (l.map fun k => if p = k then n else 0).sum = if p ∈ l then n else 0 := by
+  induction l with
+  | nil => simp
+  | cons a t ih =>
+    have h := List.nodup_cons.mp hnd
+    simp only [List.map_cons, List.sum_cons, ih h.2, List.mem_cons]
+    by_cases hp : p = a
+    · subst hp; simp [h.1]
+    · simp [hp]
+
+namespace StakeSet
+
+theorem votes_nil (ep : Nat) (k : Bytes) : votes ([] : StakeSet) ep k = 0 := by
+  simp [votes]
+
+theorem votes_cons (d : Hash × StakeDoc) (s : StakeSet) (ep : Nat) (k : Bytes) :
+    votes (d :: s) ep k
+      = (if active ep d.2 = true then (if d.2.pubkey = k then d.2.symsStaked else 0) else 0)
+        + votes s ep k := by
+  unfold votes
+  by_cases ha : active ep d.2 = true <;> by_cases hk : d.2.pubkey = k <;>
+    simp [ha, hk]
+
+theorem totalVotes_nil (ep : Nat) : totalVotes ([] : StakeSet) ep = 0 := by
+  simp [totalVotes]
+
+theorem totalVotes_cons (d : Hash × StakeDoc) (s : StakeSet) (ep : Nat) :
+    totalVotes (d :: s) ep
+      = (if active ep d.2 = true then d.2.symsStaked else 0) + totalVotes s ep := by
+  unfold totalVotes
+  by_cases ha : active ep d.2 = true <;> simp [ha]
+
+/-- a duplicate-free key list containing every active stake's key tallies the full voting power -/
+theorem sum_votes_eq_total (s : StakeSet) (ep : Nat) (keys : List Bytes) (hnd : keys.Nodup)
+    (hall : ∀ d ∈ s, active ep d.2 = true → d.2.pubkey ∈ keys) :
+    (keys.map fun k => votes s ep k).sum = totalVotes s ep := by
+  induction s with
+  | nil => simp only [votes_nil, totalVotes_nil]; exact sum_map_zero' keys
+  | cons d t ih =>
+    have ih' := ih (fun x hx => hall x (List.mem_cons_of_mem _ hx))
+    simp only [votes_cons, totalVotes_cons]
+    rw [sum_map_add' keys
+          (fun k => if active ep d.2 = true then (if d.2.pubkey = k then d.2.symsStaked else 0) else 0)
+          (fun k => votes t ep k), ih']
+    congr 1
+    by_cases ha : active ep d.2 = true
+    · simp only [ha, if_true]
+      rw [sum_map_ite_eq keys _ _ hnd, if_pos (hall d (List.mem_cons_self ..) ha)]
+    · have ha' : active ep d.2 = false := by simpa using ha
+      simp only [ha', Bool.false_eq_true, if_false]
+      exact sum_map_zero' keys
+
+/-- in general, a duplicate-free key list never tallies more than the total -/
+theorem sum_votes_le_total (s : StakeSet) (ep : Nat) (keys : List Bytes) (hnd : keys.Nodup) :
+    (keys.map fun k => votes s ep k).sum ≤ totalVotes s ep := by
+  induction s with
+  | nil => simp only [votes_nil, totalVotes_nil]; rw [sum_map_zero' keys]; exact Nat.le_refl _
+  | cons d t ih =>
+    simp only [votes_cons, totalVotes_cons]
+    rw [sum_map_add' keys
+          (fun k => if active ep d.2 = true then (if d.2.pubkey = k then d.2.symsStaked else 0) else 0)
+          (fun k => votes t ep k)]
+    apply Nat.add_le_add _ ih
+    by_cases ha : active ep d.2 = true
+    · simp only [ha, if_true]
+      rw [sum_map_ite_eq keys _ _ hnd]
+      split <;> omega
+    · have ha' : active ep d.2 = false := by simpa using ha
+      simp only [ha', Bool.false_eq_true, if_false]
+      rw [sum_map_zero' keys]; exact Nat.zero_le _
+
+end StakeSet
+
+/-- `confirm` with the header already computed -/
+theorem confirm_eq (env : Env) (ss : Sealed) (hdr : Header) (proof : List (Bytes × Bytes))
+    (hh : headerOf env ss = .ok hdr) :
+    confirm env ss proof =
+      if !(proof.all fun e => e.2.length = 64 && env.vm.sigOk e.1 (env.hdrHash hdr) e.2) then .ok false
+      else if ss.st.stakes.totalVotes ss.st.epoch > U128_MAX
+              ∨ (proof.map fun e => ss.st.stakes.votes ss.st.epoch e.1).sum > U128_MAX
+           then .crash "state.rs: vote sum overflow"
+           else .ok (decide ((proof.map fun e => ss.st.stakes.votes ss.st.epoch e.1).sum * 3
+                              > ss.st.stakes.totalVotes ss.st.epoch * 2)) := by
+  unfold confirm
+  rw [hh]
+  rfl
+
 end Mel
